@@ -405,9 +405,73 @@ func RunRestored(r *monitor.Run) {
 	r.Nontrivial("restored-session-drops")
 }
 
+// RedisCfgFault is RedisCfg plus arm(cmd, key): redis refuses the next such command with an error reply.
+var RedisCfgFault func(c *config.Config) (cleanup func(), arm func(cmd, key string), err error)
+
+// RunStoreFault is part (d): a session that ends is one event, also when the durable store refuses one of the
+// clean-up commands at that moment: OnSessionTerminated fires exactly once (plugins such as the federation learn
+// about the end of a session from nothing else), OnClosed fired before it.
+func RunStoreFault(r *monitor.Run) {
+	if RedisCfgFault == nil {
+		return
+	}
+	var cleanup func()
+	var arm func(cmd, key string)
+	b, err := broker.Start(broker.Options{Cfg: func(c *config.Config) { cleanup, arm, _ = RedisCfgFault(c) }})
+	if err != nil || arm == nil {
+		r.Inconclusive(fmt.Sprintf("store-fault broker: %v", err))
+		return
+	}
+	defer func() { b.Stop(step); cleanup() }()
+	for i, key := range []string{"session:", "queue:", "sub:", "unack:"} {
+		for _, end := range []string{"disconnect", "terminate"} {
+			id := fmt.Sprintf("sf%d%s", i, end)
+			c, err := wire.Dial(id, b.Addr, mqttx.V311)
+			if err != nil {
+				r.Inconclusive(err.Error())
+				return
+			}
+			if _, err := c.Connect(&mqttx.Packet{ClientID: id, CleanStart: true}, step); err != nil {
+				r.Inconclusive(err.Error())
+				return
+			}
+			if _, err := c.Subscribe([]mqttx.Sub{{Filter: "sf/" + id, QoS: 1}}, 0, step); err != nil {
+				r.Inconclusive(err.Error())
+				return
+			}
+			from := b.Log.Len()
+			arm("DEL", key+id)
+			if end == "disconnect" {
+				c.Disconnect(0, nil)
+			} else {
+				b.Srv.ClientService().TerminateSession(id)
+			}
+			b.Log.Wait(from, func(e broker.Event) bool { return e.Kind == "OnClosed" && e.Client == id }, step)
+			// the end of the session follows the end of the connection at once; give it a generous moment
+			b.Log.Wait(from, func(e broker.Event) bool { return e.Kind == "OnSessionTerminated" && e.Client == id }, 3*time.Second)
+			time.Sleep(30 * time.Millisecond)
+			c.Close()
+			n := 0
+			for _, e := range b.Log.Events()[from:] {
+				if e.Kind == "OnSessionTerminated" && e.Client == id {
+					n++
+				}
+			}
+			r.Eval(1)
+			gone := len(subsOf(b, id)) == 0
+			if gone && n != 1 {
+				r.Violation(fmt.Sprintf("store_fault.session_terminated_count:got=%d:end=%s:refused=DEL%s", n, end, key), fmt.Sprintf("the session of %s ended (its subscriptions are gone) while redis refused DEL %s%s: OnSessionTerminated fired %d times, want 1", id, key, id, n), nil)
+			}
+			r.Count("sessions_ended_while_the_store_refused_a_command", 1)
+			r.Nontrivial("store-fault|" + key + end)
+		}
+	}
+}
+
 // Run is the entry point.
 func Run(r *monitor.Run) {
 	RunEnforcement(r)
 	RunComposition(r)
 	RunRestored(r)
+	RunStoreFault(r)
 }
